@@ -74,4 +74,28 @@ CapsOK(P, excl) ==
             /\ ((<<i, j>> \notin excl /\ ~Absent(P.so, i) /\ ~Absent(P.to, j) /\ ms # 0 /\ mt # 0) => c >= 1)
             /\ (P.mcp > 0 => c <= P.mcp)
             /\ ((P.mcp = 0 /\ <<i, j>> \notin excl /\ ~Absent(P.so, i) /\ ~Absent(P.to, j) /\ P.src[i].rep /\ P.tgt[j].rep /\ ms < 0 /\ mt < 0) => c >= 2)
+
+(***************************************************************************)
+(* The documented default for parallel connections (matrix.py,             *)
+(* get_max_conn_parallel): the explicit limit if given, otherwise the      *)
+(* largest finite connection degree of any connector present in the        *)
+(* pattern, but at least 2.  A logged per-pair limit below                 *)
+(* min(default, what the two ends can take) for a pair that allows         *)
+(* repetition would cut valid connection sets off, so the reference set is *)
+(* computed in the box RefCap = max(logged limit, that bound).             *)
+(***************************************************************************)
+SetMax(S) == CHOOSE m \in S : \A x \in S : x <= m
+Min2(a, b) == IF a <= b THEN a ELSE b
+DefaultPar(P) ==
+    IF P.mcp > 0 THEN P.mcp
+    ELSE SetMax({2} \cup {MaxAllowed(P.src, P.so, i) : i \in 1..NS(P)} \cup {MaxAllowed(P.tgt, P.to, j) : j \in 1..NT(P)})
+RefCap(P, excl) ==
+    [i \in 1..NS(P) |-> [j \in 1..NT(P) |->
+        LET c == P.cap[i][j]
+            ms == MaxAllowed(P.src, P.so, i)
+            mt == MaxAllowed(P.tgt, P.to, j)
+            dp == DefaultPar(P)
+        IN IF <<i, j>> \in excl \/ Absent(P.so, i) \/ Absent(P.to, j) \/ ~P.src[i].rep \/ ~P.tgt[j].rep THEN c
+           ELSE IF c >= Min2(dp, Min2(IF ms < 0 THEN dp ELSE ms, IF mt < 0 THEN dp ELSE mt)) THEN c
+           ELSE Min2(dp, Min2(IF ms < 0 THEN dp ELSE ms, IF mt < 0 THEN dp ELSE mt))]]
 =============================================================================
